@@ -678,7 +678,7 @@ func ruleG11d(c *Ctx) *RuleResult {
 		r.ok("populateMultivariantPlaylist|one-rendition", c.Pos(appSt.Pos()), FuncName(fn), "one rendition is appended per stream", "outside every loop")
 	}
 	// (c) complementary URI guards
-	leadConds := ifsOn(fn, func(v ssa.Value) bool { f, _ := loadedField(v); return f == leadF })
+	leadConds := ifsOnV(fn, func(v ssa.Value) bool { f, _ := loadedField(v); return f == leadF })
 	n++
 	if len(leadConds) > 0 && onlyIf(fn, vuSt, leadConds, true) {
 		r.ok("populateMultivariantPlaylist|variant-uri", c.Pos(vuSt.Pos()), FuncName(fn), "the variant URI is stored for the leading stream only", "under isLeading")
